@@ -29,7 +29,7 @@ type Scenario struct {
 	// PushOnly allows push-only syncs (counted in Y).
 	PushOnly bool `json:"pushonly,omitempty"`
 	// InitialPresence attaches with an initial presence value.
-	InitialPresence bool `json:"initial_presence,omitempty"`
+	InitialPresence bool   `json:"initial_presence,omitempty"`
 	Cfg             Config `json:"cfg"`
 }
 
